@@ -278,6 +278,23 @@ func (o *Optimizer) OptimizeStatements(stmts []ast.Statement) []ast.Statement {
 			if litExpr, ok := condition.(*ast.LiteralExpr); ok {
 				if boolLit, ok := litExpr.Value.(ast.BoolLiteral); ok {
 					// Constant condition - eliminate dead branch
+					live := s.ThenBlock
+					if !boolLit.Value {
+						live = s.ElseBlock
+					}
+					if declared := declaredVariables(live); len(declared) > 0 {
+						// The block has its own scope: its declarations must not
+						// move into the enclosing one, and what is known about
+						// them ends with the block
+						result = append(result, &ast.IfStatement{
+							Condition: &ast.LiteralExpr{Value: ast.BoolLiteral{Value: true}},
+							ThenBlock: o.OptimizeStatements(live),
+						})
+						for _, name := range declared {
+							o.forgetVariable(name)
+						}
+						continue
+					}
 					if boolLit.Value {
 						// Condition is always true - use only then block
 						result = append(result, o.OptimizeStatements(s.ThenBlock)...)
@@ -500,6 +517,21 @@ func (o *Optimizer) forgetVariable(name string) {
 // exprKeyUsesVar reports whether a CSE key (see exprKey) reads the variable.
 func exprKeyUsesVar(key, name string) bool {
 	return strings.Contains(key, "var:"+name+" ") || strings.Contains(key, "var:"+name+")")
+}
+
+// declaredVariables lists the `$ name = value` declarations among the
+// statements of the list itself (not of nested blocks)
+func declaredVariables(stmts []ast.Statement) []string {
+	var names []string
+	for _, stmt := range stmts {
+		switch s := stmt.(type) {
+		case *ast.AssignStatement:
+			names = append(names, s.Target)
+		case ast.AssignStatement:
+			names = append(names, s.Target)
+		}
+	}
+	return names
 }
 
 // foldBinaryOp performs constant folding on binary operations
